@@ -201,6 +201,32 @@ J gen_world(uint64_t seed, const J &opts)
 		groups.push(gr);
 	}
 	plan["groups"] = groups;
+	if (focus == "C06") {
+		ncaches = 2;
+		J gr = J::obj();
+		gr["pref"] = 1;
+		J ss = J::arr();
+		ss.push(0);
+		ss.push(1);
+		gr["sockets"] = ss;
+		groups = J::arr();
+		groups.push(gr);
+		plan["groups"] = groups;
+		J s2 = plan["sim"];
+		static const unsigned pm[] = {15, 40, 120, 400, 0};
+		s2["preempt_mean"] = pm[g.below(5)];
+		s2["max_steps"] = 6000000;
+		plan["sim"] = s2;
+		cfg["refresh"] = (long long)g.pick(std::vector<long long>{5, 10, 30});
+		cfg["retry"] = (long long)g.pick(std::vector<long long>{1, 3});
+		cfg["expire"] = 7200;
+		cfg["iv_mode"] = 0;
+		plan["cfg"] = cfg;
+		J c6 = J::obj();
+		c6["readers"] = (long long)g.range(1, 3);
+		c6["reads_per_wake"] = (long long)g.pick(std::vector<long long>{10, 40, 120});
+		plan["c06"] = c6;
+	}
 	// ---- caches
 	int maxx = (int)opts.geti("maxx", 14);
 	J caches = J::arr();
@@ -234,6 +260,124 @@ J gen_world(uint64_t seed, const J &opts)
 			iv.push(g.pick(EX));
 		}
 		c["iv"] = iv;
+		if (focus == "C06") {
+			J script = J::arr();
+			if (ci == 0) {
+				script.push(J::obj()); // first synchronisation: the OLD set
+				int nre = (int)g.range(1, 5);
+				for (int q = 0; q < nre; q++) {
+					// how the NEW set relates to the OLD one
+					J edits = J::arr();
+					unsigned mode = (unsigned)g.below(100);
+					auto delall = [&]() {
+						for (int z = 0; z < 40; z++) {
+							J e = J::arr();
+							e.push("delany");
+							e.push(0);
+							edits.push(e);
+							J e2 = J::arr();
+							e2.push("delanykey");
+							e2.push(0);
+							edits.push(e2);
+						}
+					};
+					if (mode < 25) { // disjoint / replaced
+						delall();
+						J more = gen_edits(g, P, 12);
+						for (auto &e : more.a)
+							if (e[(size_t)0].str() == "add" || e[(size_t)0].str() == "addkey")
+								edits.push(e);
+					} else if (mode < 35) { // empty NEW
+						delall();
+					} else if (mode < 45) { // identical
+					} else { // overlapping
+						J more = gen_edits(g, P, 10);
+						for (auto &e : more.a)
+							edits.push(e);
+					}
+					unsigned how = (unsigned)g.below(100);
+					if (how < 60) { // cache restart: new session, Serial Query answered with Cache Reset
+						J ex = J::obj();
+						J pre = J::arr();
+						J r = J::arr();
+						r.push("restart");
+						r.push((long long)g.below(65536));
+						r.push((long long)g.below(1000));
+						pre.push(r);
+						for (auto &e : edits.a)
+							pre.push(e);
+						ex["pre"] = pre;
+						script.push(ex);
+					} else if (how < 80) { // history lost
+						J ex = J::obj();
+						J pre = J::arr();
+						for (auto &e : edits.a)
+							pre.push(e);
+						J r = J::arr();
+						r.push("drophist");
+						r.push(1);
+						pre.push(r);
+						J b2 = J::arr();
+						b2.push("bump");
+						pre.push(b2);
+						J r2 = J::arr();
+						r2.push("drophist");
+						r2.push(1);
+						pre.push(r2);
+						ex["pre"] = pre;
+						script.push(ex);
+					} else { // no data for a while, then data again
+						J ex = J::obj();
+						J pre = J::arr();
+						J r = J::arr();
+						r.push("nodata");
+						r.push(1);
+						pre.push(r);
+						ex["pre"] = pre;
+						script.push(ex);
+						J ex2 = J::obj();
+						J pre2 = J::arr();
+						J r2 = J::arr();
+						r2.push("nodata");
+						r2.push(0);
+						pre2.push(r2);
+						for (auto &e : edits.a)
+							pre2.push(e);
+						ex2["pre"] = pre2;
+						script.push(ex2);
+					}
+					// the reload itself (answer to the Reset Query), sometimes failing first
+					if (g.chance(300)) {
+						J bad = J::obj();
+						if (g.chance(500)) {
+							J muts = J::arr();
+							muts.push(gen_listed_mut(g, "C03"));
+							bad["muts"] = muts;
+						} else {
+							J fs = J::arr();
+							fs.push(gen_transport_fault(g, false));
+							bad["faults"] = fs;
+						}
+						script.push(bad);
+					}
+					J good = J::obj();
+					good["order"] = (long long)(g.next() & 0xffffffff);
+					script.push(good);
+					if (g.chance(400))
+						script.push(J::obj()); // an ordinary poll in between
+				}
+			}
+			c["script"] = script;
+			c["opens"] = J::arr();
+			c["vmax"] = 1;
+			J iv = J::arr();
+			iv.push(cfg.geti("refresh"));
+			iv.push(cfg.geti("retry"));
+			iv.push(7200);
+			c["iv"] = iv;
+			caches.push(c);
+			continue;
+		}
 		bool bystander = (ncaches == 2 && ci == 1 && focus != "C15" && g.chance(700));
 		int nx = bystander ? (int)g.range(0, 3) : (int)g.range(2, maxx);
 		unsigned p_fault = bystander ? 0 : (focus == "C17" ? 150 : focus == "C08" ? 600 : 380);
